@@ -599,6 +599,55 @@ theorem map_set_tomb (items : List (Option α)) (i : Nat) :
     (items.set i none).map ofItem = (items.map ofItem).set i Val.sentinel := by simp [List.map_set]
 
 
+/-- the loop `for d_start, d_stop in self.dead_indices: if real_index < d_start: break; real_index += d_stop - d_start`
+    read through the store, whatever its body looks like, as long as one iteration on the cell `[a, b]` either breaks
+    (running value below `a`) or adds `b - a` -/
+theorem cells_real_loop {σ ρ : Type} (H : σ → Heap α Unit) (D : σ → List (Val α Unit)) (K : σ → Int)
+    (keep : Val α Unit → Bool) (bind : Int → Val α Unit → σ → σ) (body : Stmt σ ρ) (hkeep : ∀ v, keep v = true)
+    (hbody : ∀ (t : σ) (a : Nat) (p : Nat × Nat) (iv : Int), (H t).cell a = ivCell p → p.1 ≤ p.2 → 0 ≤ K t →
+      (K t < p.1 → ∃ t', body (bind iv (.ref a) t) = (.brk, t') ∧ K t' = K t ∧ H t' = H t ∧ D t' = D t) ∧
+      (¬ K t < p.1 → ∃ t', body (bind iv (.ref a) t) = (.next, t') ∧ K t' = K t + ((p.2 : Int) - p.1) ∧ H t' = H t ∧
+        D t' = D t)) :
+    ∀ (dead : List (Nat × Nat)) (addrs : List Nat) (pre : List (Val α Unit)) (fuel : Nat) (iv : Int) (t : σ) (r : Nat),
+      D t = pre ++ addrs.map Val.ref → addrs.map (H t).cell = dead.map ivCell → K t = (r : Int) →
+      (∀ p ∈ dead, p.1 ≤ p.2) → dead.length < fuel →
+      ∃ t', forLazy D keep bind body fuel pre.length iv t = (.next, t') ∧ K t' = (realLoop r dead : Int) ∧ H t' = H t ∧
+        D t' = D t := by
+  intro dead
+  induction dead with
+  | nil =>
+    intro addrs pre fuel iv t r hD hc hK _ hf
+    obtain ⟨n, rfl⟩ : ∃ n, fuel = n + 1 := ⟨fuel - 1, by omega⟩
+    have : addrs = [] := by cases addrs with | nil => rfl | cons _ _ => simp at hc
+    subst this
+    refine ⟨t, ?_, by simpa [realLoop] using hK, rfl, rfl⟩
+    simp [forLazy, hD]
+  | cons p ds ih =>
+    intro addrs pre fuel iv t r hD hc hK hord hf
+    obtain ⟨n, rfl⟩ : ∃ n, fuel = n + 1 := ⟨fuel - 1, by omega⟩
+    cases addrs with
+    | nil => simp at hc
+    | cons a as =>
+      simp only [List.map_cons, List.cons.injEq] at hc
+      obtain ⟨hca, hcs⟩ := hc
+      have hget : (D t)[pre.length]? = some (Val.ref a) := by rw [hD]; simp
+      obtain ⟨a0, b0⟩ := p
+      have hb := hbody t a (a0, b0) iv hca (hord _ (by simp)) (by omega)
+      simp only [forLazy, hget, hkeep, if_true, realLoop]
+      by_cases hlt : r < a0
+      · obtain ⟨t', h1, h2, h3, h4⟩ := hb.1 (by simp only; omega)
+        rw [h1, if_pos hlt]
+        exact ⟨t', rfl, by rw [h2, hK], h3, h4⟩
+      · obtain ⟨t', h1, h2, h3, h4⟩ := hb.2 (by simp only; omega)
+        rw [h1, if_neg hlt]
+        have hab : a0 ≤ b0 := hord (a0, b0) (by simp)
+        obtain ⟨t2, g1, g2, g3, g4⟩ := ih as (pre ++ [Val.ref a]) n (iv + 1) t' (r + (b0 - a0))
+          (by rw [h4, hD]; simp) (by rw [h3]; exact hcs) (by rw [h2, hK]; simp only; omega)
+          (fun q hq => hord q (List.mem_cons_of_mem _ hq)) (by simp at hf; omega)
+        refine ⟨t2, ?_, g2, g3.trans h3, g4.trans h4⟩
+        simpa using g1
+
+
 end RepSec
 
 end C11
